@@ -22,7 +22,7 @@ import z3
 from .vals import (IntV, BoolV, RealV, TupV, ConstV, UnkV, ObjV, ExcV, FuncV, Val, lift, int_term,
                    is_conc_int, conc_int, fresh_int, fresh_bool, simp, mk_and, mk_or,
                    pow2_f, bitlen_f, ipow_f, and_uf, or_uf, xor_uf, mk_mask, _mask_terms,
-                   pow2_term, is_pow2m1, is_single_bit, cfix_f, rval_f, rfun_f, fresh_real)
+                   pow2_term, is_pow2m1, is_single_bit, cfix_f, rval_f, rfun_f, fresh_real, isqrt_f)
 from . import contract as C
 
 TRUE = z3.BoolVal(True)
@@ -745,6 +745,18 @@ class Pure(object):
         if rv is None or int_term(k) is None:
             return self.unk('r_fun of non-real')
         return RealV(rfun_f(int_term(k), rv))
+
+    def prim_isqrt(self, x):
+        tx = int_term(x)
+        if tx is None:
+            return self.unk('isqrt of non-int')
+        y = isqrt_f(tx)
+        key = ('isqrt', y.get_id())
+        if key not in self.st.memo:
+            # definition of the floor square root
+            self.st.memo[key] = y
+            self.st.pc.append(z3.Implies(tx >= 0, z3.And(y >= 0, y * y <= tx, tx < (y + 1) * (y + 1))))
+        return IntV(y)
 
     def prim_cfix(self, p):
         return IntV(cfix_f(int_term(p)))
@@ -1589,6 +1601,11 @@ class PathExec(object):
                 r = p.inline_spec(cm['call_requires'], args, {})
                 eng.oblig(st, 'precondition', 'call:%s.requires' % fv.oid, p.truthy(r), lineno, guard=guard)
             eng.__dict__.setdefault('used_contracts', set()).add('%s:<free variable %s>' % (ctf.target, fv.oid))
+            if cm.get('may_raise'):
+                # the callee may be aborted by any exception (KeyboardInterrupt, MemoryError, an injected fault)
+                s2 = st.fork()
+                s2.trace.append('L%s:%s raises' % (lineno, fv.oid))
+                yield s2, ExcV('CalleeException', 'raised by the modelled free variable %s' % fv.oid)
             yield st, p.inline_spec(cm['call'], args, {})
             return
         if isinstance(fv, FuncV):
